@@ -496,3 +496,38 @@ def run_bx_convert(name, maxlen):
         r.failures.append({'function': 'convert_record_definition', 'message': '; '.join(v['clauses'][:3]), 'convert_case': v, 'clauses': v['clauses'],
                            'tags': ['C20'], 'props': ['C20']})
     return r
+
+
+def run_bx_types(name, depth):
+    """bounded stand-in for the type-name pipeline (C17)"""
+    r = UnitResult(name, 'bx (native execution of the type-name pipeline over a grammar of types)')
+    t0 = time.time()
+    exe, err = build_bx()
+    if exe is None:
+        r.status, r.reason = INCONCLUSIVE, 'bx does not build against the current tree: %s' % err
+        return r
+    cmd = [exe, 'types', '--depth', str(depth)]
+    r.cmd = ' '.join(cmd)
+    rc, out, err, wall, to = _sh(cmd, 1800)
+    r.wall_s = time.time() - t0
+    try:
+        j = json.loads(out[:out.index('\n}') + 2])
+    except Exception:
+        r.status, r.reason = INCONCLUSIVE, 'bx types rc=%s: %s' % (rc, (out + err)[-800:])
+        return r
+    r.obligations = j['checked'] + j['lookups']
+    r.discharged = r.obligations - len(j['violations'])
+    r.bounded = ('BOUNDED: every type built from {u8, u32, usize, bool, String, ()} by <= %d nested applications of Box<_>, Vec<_>, Option<_>, [_; 3], Box<[_]>, '
+                 '(_, u8), Result<_, String> (%d distinct types); five spellings per type for the table lookup' % (depth, j['distinct_types']))
+    r.extra = {'evaluations': j['checked'] + j['lookups'], 'distinct_nontrivial': j['distinct_types'],
+               'rule': 'one evaluation = one type whose recorded name is compared with its source tokens, or one table lookup under one spelling; distinct = distinct types',
+               'samples': j['samples']}
+    r.functions = [{'kind': 'fn', 'selector': s, 'file': f, 'line': 0, 'sha256': 'executed natively (linked from /repo)'} for f, s in
+                   (('truc/src/record/type_name.rs', 'truc_type_name / truc_dynamic_type_name (through HostTypeResolver::type_info and StaticTypeResolver::dynamic_type_info)'),
+                    ('truc/src/record/type_resolver.rs', 'StaticTypeResolver::add_type / dynamic_type_info'))]
+    if j['violations']:
+        r.status = VIOLATION
+        r.reason = '%d types or lookups violate the contract' % len(j['violations'])
+        r.failures.append({'function': 'truc_type_name / table lookup', 'message': '; '.join(j['violations'][:3]), 'types_case': j['violations'],
+                           'tags': ['C17'], 'props': ['C17']})
+    return r
